@@ -9,7 +9,7 @@
    value) and the mapping built by rename_labels(generator=...) (k-th label of labels() -> k-th
    value). Generated values are pairwise distinct (C19). Statements only. *)
 From PV Require Import Model.AnnotationOps Proofs.DictP Proofs.AnnotationInvP Proofs.RenameSubsetP
-  Proofs.AnnCropInterP Proofs.AnnRenameTracksP.
+  Proofs.AnnCropInterP Proofs.AnnRenameTracksP Proofs.DerivedInvP.
 
 (* every track keeps its segment and name and gets mapping.get(label, label): applied once, simultaneously *)
 Theorem C11_rename_applies_mapping_once : forall a mapping s t,
@@ -76,6 +76,12 @@ Proof. exact gen_fun_inj. Qed.
 Theorem C11_generator_running_dry_fails : forall eps a l, (List.length l < List.length (itertracks a))%nat ->
   rename_tracks_ann eps a (GList l) = None /\ relabel_tracks_ann eps a (GList l) = None.
 Proof. exact (fun eps a l H => conj (rename_tracks_exhausted eps a l H) (relabel_tracks_exhausted eps a l H)). Qed.
+(* the result of subset is a proper annotation again, and its labels() is the filtered labels() of the source *)
+Theorem C11_subset_keeps_the_invariant : forall eps a labs inv, AInv eps a -> AInv eps (subset_ann eps a labs inv).
+Proof. exact AInv_subset. Qed.
+Theorem C11_labels_of_subset : forall eps a labs inv, AInv eps a ->
+  snd (labels eps (subset_ann eps a labs inv)) = filter (fun l => xorb (name_in l labs) inv) (snd (labels eps a)).
+Proof. exact subset_labels. Qed.
 
 Example C11_nonvacuous :
   let a := ann_of 0 None None [((0, 4), NStr "x", NStr "a"); ((0, 4), NStr "y", NStr "b"); ((2, 6), NStr "_", NStr "a")] in
@@ -103,3 +109,5 @@ Print Assumptions C11_relabel_tracks.
 Print Assumptions C11_generated_mapping_follows_label_order.
 Print Assumptions C11_generated_values_distinct.
 Print Assumptions C11_generator_running_dry_fails.
+Print Assumptions C11_subset_keeps_the_invariant.
+Print Assumptions C11_labels_of_subset.
